@@ -61,7 +61,9 @@ CLAIMED["C02"] = {
             "these) and every well-typed value, the canonical tokens parse back to exactly that value (induction over items/tuples; int() round trip for "
             "integers of any size via the stdlib decimal lemmas; float() round trip for every exact decimal); order independence and 'unmentioned fields "
             "keep their default' for any number of distinct options; Optional[Literal]/List[Literal] refuted with a witness (known finding). Converter tables "
-            "and decision-chain orders are regenerated; get_arg_options/postprocess are hand-modelled and tied by correspondence.",
+            "and decision-chain orders are regenerated; get_arg_options/postprocess are hand-modelled and tied by correspondence. "
+            "The per-field abstraction itself is a theorem about the token-level argparse model (ARGP_leaf_pipeline), and the same composition gives "
+            "C04_missing_required_rejected / C04_unknown_option_rejected / C04_surplus_token_rejected (Proofs/LeafReject.v).",
     "note": COMMON_NOTE + "argparse's slicing of one option group (nargs) and `--o=v` == `--o v` are modelled; floats are exact decimals (repr through decimal.Decimal); exponent spellings by instances + correspondence.",
     "technique": T,
 }
@@ -69,7 +71,10 @@ CLAIMED["C04"] = {
     "text": "C04_accepted_is_well_typed (any token list: an accepted field value conforms to its annotation) and C04_refused_means_exit_2 (any refusal is "
             "argparse's error path, status 2 - true since the fix: commits, through the regenerated exception class of parse_enum and the regenerated "
             "BooleanOptionalAction.__call__ table), plus one theorem per mutation class (arity, surplus token, unknown Enum/Literal member, ill-typed "
-            "item, value on a negative flag). Missing-required and unknown-option are argparse's own and covered by correspondence.",
+            "item, value on a negative flag). Missing-required and unknown-option are argparse's own and covered by correspondence. "
+            "They are now also theorems about the composition of the leaf model with the token-level argparse model (Proofs/LeafReject.v), for all field "
+            "lists and all command lines made of well-formed groups: C04_missing_required_rejected, C04_unknown_option_rejected and "
+            "C04_surplus_token_rejected (each: parse_args = Err (Exit 2)).",
     "note": COMMON_NOTE + "argparse's required/unknown-option handling is modelled; user __post_init__ is not exercised.",
     "technique": T,
 }
